@@ -1,4 +1,5 @@
 import SlipVerif.Model.Lin
+import SlipVerif.Theorems.C17
 /-
   C17 — the linearizability checker is sound (the `conc lin` entry of the driver runs `opsOf` and
   `linCheck` of Model/Lin.lean on the histories recorded from real runs).
@@ -14,6 +15,12 @@ import SlipVerif.Model.Lin
   * `linearizable_perm`         linearizability does not depend on the order in which the operations
                                 are listed
   * `lost_update_not_linearizable` two operations that read the same value of one counter: no witness
+  * `legal_of_consecutive`      converse of `legal_reads_consecutive`: per-counter consecutive reads
+                                make the interleaved sequence legal
+  * `model_histories_accepted`, `model_histories_linearizable`  every history of the interleaving
+                                model (Model/Conc.lean: any schedule of a guarded system), with each
+                                increment taken as atomic at its read, is accepted by `linCheck`,
+                                hence linearizable: a correct implementation is never rejected
 -/
 namespace SlipVerif.Lin
 
@@ -161,5 +168,113 @@ theorem linearizable_final_value {ops : List Opn} (h : Linearizable ops) :
     have := legal_final_value S _ st' hrun k
     rw [this, (hperm.filter _).length_eq]
     simp
+
+/-! ### the histories of the interleaving model are accepted -/
+
+/-- the increment operations of a trace of Model/Conc.lean: the `i`-th event, if it is the read of
+    an increment, is an operation that is invoked, takes effect and responds at that event (the
+    tightest intervals = the most real-time constraints) -/
+def modelOps (i : Nat) : List Conc.Event → List Opn
+  | [] => []
+  | .loaded t k v :: rest => ⟨t, k, v, 3 * i, 3 * i + 1, some (3 * i + 2)⟩ :: modelOps (i + 1) rest
+  | .pushed _ _ _ :: rest => modelOps (i + 1) rest
+  | .popped _ _ _ :: rest => modelOps (i + 1) rest
+  | .locked _ _ :: rest => modelOps (i + 1) rest
+  | .unlocked _ _ :: rest => modelOps (i + 1) rest
+  | .stored _ _ _ :: rest => modelOps (i + 1) rest
+
+theorem modelOps_facts : ∀ (tr : List Conc.Event) (i : Nat), ∀ o ∈ modelOps i tr,
+    3 * i + 1 ≤ o.pt ∧ timesOk o = true
+  | [], _, o, h => by simp [modelOps] at h
+  | e :: rest, i, o, h => by
+      have ih := modelOps_facts rest (i + 1) o
+      cases e <;> simp only [modelOps, List.mem_cons] at h
+      case loaded t k v =>
+        rcases h with rfl | h
+        · simp [timesOk]
+        · have := ih h; exact ⟨by omega, this.2⟩
+      all_goals
+        have := ih h; exact ⟨by omega, this.2⟩
+
+theorem ptSorted_cons {a : Opn} {l : List Opn} (h1 : ∀ o ∈ l, a.pt < o.pt) (h2 : ptSorted l = true) :
+    ptSorted (a :: l) = true := by
+  cases l with
+  | nil => rfl
+  | cons b rest =>
+    simp only [ptSorted, Bool.and_eq_true, decide_eq_true_eq]
+    exact ⟨h1 b (List.mem_cons_self ..), h2⟩
+
+theorem modelOps_ptSorted : ∀ (tr : List Conc.Event) (i : Nat), ptSorted (modelOps i tr) = true
+  | [], _ => rfl
+  | e :: rest, i => by
+      have ih := modelOps_ptSorted rest (i + 1)
+      cases e <;> simp only [modelOps] <;> try exact ih
+      apply ptSorted_cons _ ih
+      intro o ho
+      have := (modelOps_facts rest (i + 1) o ho).1
+      simp only
+      omega
+
+theorem modelOps_reads (k : Nat) : ∀ (tr : List Conc.Event) (i : Nat),
+    ((modelOps i tr).filter (fun o => o.k == k)).map (·.v) = Conc.loadLog k tr
+  | [], _ => by simp [modelOps, Conc.loadLog]
+  | e :: rest, i => by
+      have ih := modelOps_reads k rest (i + 1)
+      unfold Conc.loadLog at ih ⊢
+      cases e <;> simp only [modelOps, List.filterMap_cons] <;> try exact ih
+      rename_i t k' v
+      by_cases e : k' = k
+      · subst e
+        simp [List.filter, ih]
+      · have e' : (k' == k) = false := by simp [e]
+        simp [List.filter, e', e, ih]
+
+/-- per-counter consecutive reads make the whole (interleaved) sequence a legal sequential history -/
+theorem legal_of_consecutive : ∀ (S : List Opn) (st : Nat → Nat),
+    (∀ k, (S.filter (fun o => o.k == k)).map (·.v) =
+      List.range' (st k) ((S.filter (fun o => o.k == k)).length)) → (seqRun st S).isSome = true
+  | [], _, _ => rfl
+  | o :: rest, st, H => by
+      have hk := H o.k
+      have e0 : (o.k == o.k) = true := by simp
+      simp only [List.filter, e0, List.map_cons, List.length_cons, List.range'_succ, List.cons.injEq] at hk
+      simp only [seqRun, hk.1, if_true]
+      apply legal_of_consecutive rest
+      intro k
+      by_cases e : o.k = k
+      · subst e
+        rw [upd_same, hk.2]
+      · have e' : (o.k == k) = false := by simp [e]
+        have e'' : k ≠ o.k := fun h => e h.symm
+        have := H k
+        simp only [List.filter, e'] at this
+        rw [upd_other _ _ e'']
+        exact this
+
+/-- **Every history the interleaving model can produce is accepted**: for any schedule of a guarded
+    system, the increments of the trace (each atomic at its read) pass `linCheck`. -/
+theorem model_histories_accepted (S : Conc.Sys) (g : Nat → Nat) (hg : S.guarded g = true)
+    (sched : List (Nat × Nat)) : linCheck (modelOps 0 (Conc.exec S Conc.init sched).trace) = true := by
+  simp only [linCheck, Bool.and_eq_true]
+  refine ⟨⟨?_, modelOps_ptSorted _ 0⟩, ?_⟩
+  · exact List.all_eq_true.mpr (fun o ho => (modelOps_facts _ 0 o ho).2)
+  · unfold legalSeq
+    apply legal_of_consecutive
+    intro k
+    have hr := modelOps_reads k (Conc.exec S Conc.init sched).trace 0
+    have hs := Conc.increments_read_sequentially S g hg sched k
+    have hl : ((modelOps 0 (Conc.exec S Conc.init sched).trace).filter (fun o => o.k == k)).length =
+        (Conc.loadLog k (Conc.exec S Conc.init sched).trace).length := by
+      rw [← hr, List.length_map]
+    rw [hr, hl, ← List.range_eq_range']
+    exact hs
+
+/-- … hence linearizable -/
+theorem model_histories_linearizable (S : Conc.Sys) (g : Nat → Nat) (hg : S.guarded g = true)
+    (sched : List (Nat × Nat)) : Linearizable (modelOps 0 (Conc.exec S Conc.init sched).trace) :=
+  linCheck_sound (model_histories_accepted S g hg sched)
+
+example : Conc.exSys.guarded (fun _ => 0) = true := by decide
+example : linCheck (modelOps 0 (Conc.exec Conc.exSys Conc.init Conc.exSched).trace) = true := by decide
 
 end SlipVerif.Lin
